@@ -10,6 +10,7 @@ import (
 	"time"
 
 	connect "github.com/bufbuild/connect-go"
+	"google.golang.org/protobuf/proto"
 	"verif.local/harness/ev"
 	"verif.local/harness/gen"
 	"verif.local/harness/svc"
@@ -18,7 +19,24 @@ import (
 func init() { register("C01", "exploration", c01) }
 
 // c01 variant: handler-side and client-side compression settings.
+// prefixCodec is a user-supplied codec: binary proto behind a two-byte magic,
+// so that no message - not even the zero value - has an empty encoding.
+type prefixCodec struct{}
+
+func (prefixCodec) Name() string { return "verifbin" }
+func (prefixCodec) Marshal(m any) ([]byte, error) {
+	b, err := proto.Marshal(m.(proto.Message))
+	return append([]byte{0xC0, 0xDE}, b...), err
+}
+func (prefixCodec) Unmarshal(b []byte, m any) error {
+	if len(b) < 2 || b[0] != 0xC0 || b[1] != 0xDE {
+		return fmt.Errorf("verifbin: bad magic in %d bytes", len(b))
+	}
+	return proto.Unmarshal(b[2:], m.(proto.Message))
+}
+
 type c01Variant struct {
+	customCodec bool
 	name       string
 	hopts      []connect.HandlerOption
 	copts      []connect.ClientOption
@@ -32,6 +50,7 @@ func c01Variants(stats *svc.AlgoStats) []c01Variant {
 		{name: "identity", hopts: []connect.HandlerOption{connect.WithCompressMinBytes(1 << 30)}, copts: []connect.ClientOption{connect.WithCompressMinBytes(1 << 30)}},
 		{name: "gzip-both-min0", copts: []connect.ClientOption{connect.WithSendGzip()}, compressed: true},
 		{name: "gzip-both-min512", hopts: []connect.HandlerOption{connect.WithCompressMinBytes(512)}, copts: []connect.ClientOption{connect.WithSendGzip(), connect.WithCompressMinBytes(512)}, compressed: true},
+		{name: "custom-codec-gzip", hopts: []connect.HandlerOption{connect.WithCodec(prefixCodec{})}, copts: []connect.ClientOption{connect.WithCodec(prefixCodec{}), connect.WithSendGzip()}, compressed: true, customCodec: true},
 		{name: "zzxor-both-min1",
 			hopts:      []connect.HandlerOption{connect.WithCompression("zz-xor", d, c), connect.WithCompressMinBytes(1)},
 			copts:      []connect.ClientOption{connect.WithAcceptCompression("zz-xor", d, c), connect.WithSendCompression("zz-xor"), connect.WithCompressMinBytes(1)},
@@ -147,6 +166,9 @@ func c01(run *ev.Run) int {
 					for _, k := range svc.Kinds {
 						if k == svc.Bidi && !h2 {
 							continue
+						}
+						if variants[vi].customCodec && c != "proto" {
+							continue // the variant brings its own codec
 						}
 						jobs = append(jobs, job{vi, h2, p, c, k})
 					}
